@@ -41,6 +41,7 @@ import GeoProofs.Lemmas.RELM3Areal
 import GeoProofs.Lemmas.RELM3Full
 import GeoProofs.Lemmas.RELM3ArealFull
 import GeoProofs.Lemmas.RELM3MPoly
+import GeoProofs.Lemmas.RELM3PointMP
 import Mathlib.Tactic.NormNum
 
 namespace Geo.Proofs.C01
@@ -2093,6 +2094,70 @@ example : relateImpl (.multiPolygon [⟨[⟨0, 0⟩, ⟨4, 0⟩, ⟨4, 4⟩, ⟨
     relateSpec (.multiPolygon [⟨[⟨0, 0⟩, ⟨4, 0⟩, ⟨4, 4⟩, ⟨0, 4⟩, ⟨0, 0⟩], []⟩, ⟨[⟨4, 4⟩, ⟨8, 4⟩, ⟨8, 8⟩, ⟨4, 8⟩, ⟨4, 4⟩], []⟩])
       (.point ⟨4, 4⟩) :=
   (relateImpl_point_eq_spec_extendedType_partial _ _ (by decide +kernel) rfl).2
+
+/-! ### `Point × MultiPoint`; `Point × B` for every `B` that is not a GeometryCollection -/
+
+/-- [T] **`relate(Point p, MultiPoint qs) = relateSpec`, the whole matrix, on the graph path** (any arithmetic, any
+coordinate list): `B` has no edge; the nodes of `B` away from `p` contribute (0, E, I), nothing lands on a boundary. -/
+theorem relateImpl_point_multiPoint_graph (ar : Arith) (p : Pt) (qs : List Pt) {m : IM}
+    (h : relateGraph ar (.point p) (.multiPoint qs) = some m) : m = relateSpec (.point p) (.multiPoint qs) :=
+  point_multiPoint_graph ar p qs h
+
+example : ∀ m, relateGraph Arith.exact (.point ⟨1, 1⟩) (.multiPoint [⟨0, 0⟩, ⟨1, 1⟩, ⟨1, 1⟩, ⟨2, 2⟩]) = some m →
+    m = relateSpec (.point ⟨1, 1⟩) (.multiPoint [⟨0, 0⟩, ⟨1, 1⟩, ⟨1, 1⟩, ⟨2, 2⟩]) :=
+  fun _ h => relateImpl_point_multiPoint_graph _ _ _ h
+
+/-- [T] **`relateImpl (Point p) B = relateSpec (Point p) B` and `relateImpl B (Point p) = relateSpec B (Point p)` for
+EVERY `B` of the validity domain that is not a GeometryCollection** — Point, MultiPoint, Line, LineString,
+MultiLineString, Polygon, MultiPolygon, Rect, Triangle; the whole matrix, both paths, the total function. The only
+hypothesis is the property's own domain.
+Full statement (collections too): rows / columns Interior and Boundary are proved for one-kind collections
+(`relateImpl_point_rows_eq_spec_allTypes_partial`), the whole matrix on the graph path for collections of linear members
+(`relateImpl_point_linear_graph_eq_spec`); missing: `DimsSpec` of a collection (shortcut path), the Exterior row of
+areal / point collections, collections mixing kinds (only with empty members). -/
+theorem relateImpl_point_eq_spec_noCollection_partial (p : Pt) (b : Geom) (hd : inDomain b = true)
+    (ht : notCollection b = true) :
+    relateImpl (.point p) b = relateSpec (.point p) b ∧ relateImpl b (.point p) = relateSpec b (.point p) := by
+  have key : ∀ (hz : noZeroLine b = true) (hc : ringsClosed b = true),
+      (envelopesMeet (.point p) b = true →
+        ∀ m, relateGraph Arith.exact (.point p) b = some m → m = relateSpec (.point p) b) →
+      relateImpl (.point p) b = relateSpec (.point p) b ∧ relateImpl b (.point p) = relateSpec b (.point p) := by
+    intro hz hc hgraph
+    have hs := relateImpl_never_panics (.point p) b rfl hz rfl hc
+    have h1 : relateImpl (.point p) b = relateSpec (.point p) b := by
+      obtain ⟨m, hm⟩ := Option.isSome_iff_exists.1 hs
+      unfold relateImpl
+      rw [hm]
+      show m = relateSpec (.point p) b
+      cases henv : envelopesMeet (.point p) b with
+      | true =>
+        apply hgraph henv
+        unfold relateImpl? relateImplWith at hm
+        rw [henv, if_pos rfl] at hm
+        exact hm
+      | false =>
+        have := relateImpl_disjoint_eq_spec_noCollection_partial Arith.exact (a := .point p) (b := b) rfl hd rfl ht henv
+        unfold relateImpl? at hm
+        rw [this] at hm
+        exact (Option.some.inj hm).symm
+    exact ⟨h1, by rw [relateImpl_transpose_closed (.point p) b rfl hz rfl hc, h1, relateSpec_transpose (.point p) b]⟩
+  cases b with
+  | point q =>
+    apply key rfl rfl
+    intro henv m hm
+    have h0 := relateImpl_point_point Arith.exact p q
+    unfold relateImplWith at h0
+    rw [henv, if_pos rfl, hm] at h0
+    exact Option.some.inj h0
+  | multiPoint qs => exact key rfl rfl (fun _ m hm => relateImpl_point_multiPoint_graph _ p qs hm)
+  | collection _ => cases ht
+  | line a c => exact relateImpl_point_eq_spec_extendedType_partial p _ hd rfl
+  | lineString cs => exact relateImpl_point_eq_spec_extendedType_partial p _ hd rfl
+  | multiLineString ls => exact relateImpl_point_eq_spec_extendedType_partial p _ hd rfl
+  | polygon q => exact relateImpl_point_eq_spec_extendedType_partial p _ hd rfl
+  | multiPolygon ps => exact relateImpl_point_eq_spec_extendedType_partial p _ hd rfl
+  | rect mn mx => exact relateImpl_point_eq_spec_extendedType_partial p _ hd rfl
+  | triangle a c e => exact relateImpl_point_eq_spec_extendedType_partial p _ hd rfl
 
 end Impl3
 
